@@ -53,6 +53,7 @@ model = Model/TranslatePolicy.lean):
   J pkeys-multiset <fam> <p> <keys()> <for_each_key trace> <keys scanned from to_string()>
 Descriptors (wire form of Driver/OpsDesc.lean; model = Model/TranslateDesc.lean):
   C dtranslate <map> <d>               `Descriptor::translate_pk`           wire / ERR:K<id> / ERR:H.. / ERR:outer
+  C dforeach <stop|-> <d> / C dforany <hit|-> <d>   `Descriptor::for_each_key` / `for_any_key` with trace
   C diterpk <d>                        `Descriptor::iter_pk().collect()`     k,k,… / -
   J diterpk <d> <iter_pk> <keys scanned from to_string()>      both = keys of the printed form, in order
   J dtranslate-legal <map> <d> <answer>     refused (ERR:outer) iff the substituted descriptor is illegal
@@ -449,6 +450,12 @@ def opsCmp (t : Tables) (kind op : String) (args : List String) : Option String 
   | "C", "diterpk", [d] => do
     let d ← DescOps.parseDesc d
     pure (showKeys d.iterPk)
+  | "C", "dforeach", [stop, d] => do
+    let d ← DescOps.parseDesc d; let stop ← parseOptNat stop
+    pure (showVisit (Desc.descForEachKey (fun k => some k != stop) d))
+  | "C", "dforany", [hit, d] => do
+    let d ← DescOps.parseDesc d; let hit ← parseOptNat hit
+    pure (showVisit (Desc.descForAnyKey (fun k => some k == hit) d))
   -- SPEC: keys of the printed form, in order
   | "J", "diterpk", [d, it, scanned] => do
     let d ← DescOps.parseDesc d
